@@ -65,8 +65,10 @@ fn scratch() -> std::path::PathBuf {
 
 fn module_text(i: usize, rust: &str, nin: usize, has_main: bool) -> String {
     let call_main = if has_main { "        let _ = program.call_main();\n" } else { "" };
+    #[allow(non_snake_case)]
+    let HOST_SR = crate::run::HOST_SAMPLE_RATE;
     format!(
-        "#[allow(warnings)]\nmod p{i} {{\n{rust}\npub struct H {{ pub now: f64 }}\nimpl MimiumHost for H {{\n    fn call_ext(&mut self, name: &str, a: &[Word], _r: usize) -> Result<Vec<Word>, String> {{\n        let x = |i: usize| f64::from_bits(a.get(i).copied().unwrap_or(0));\n        let r = match name {{\n            \"sin\" => x(0).sin(), \"cos\" => x(0).cos(), \"tan\" => x(0).tan(), \"sinh\" => x(0).sinh(), \"cosh\" => x(0).cosh(), \"tanh\" => x(0).tanh(),\n            \"asin\" => x(0).asin(), \"acos\" => x(0).acos(), \"atan\" => x(0).atan(), \"atan2\" => x(0).atan2(x(1)), \"sqrt\" => x(0).sqrt(), \"abs\" => x(0).abs(),\n            \"log\" => x(0).ln(), \"exp\" => x(0).exp(), \"pow\" => x(0).powf(x(1)), \"min\" => x(0).min(x(1)), \"max\" => x(0).max(x(1)),\n            \"ceil\" => x(0).ceil(), \"floor\" => x(0).floor(), \"round\" => x(0).round(),\n            _ => return Err(format!(\"unexpected external call: {{}}\", name)),\n        }};\n        Ok(vec![r.to_bits()])\n    }}\n    fn current_time(&mut self) -> f64 {{ self.now }}\n    fn sample_rate(&mut self) -> f64 {{ 48000.0 }}\n}}\npub fn run() {{\n        let mut program = MimiumProgram::with_host(H {{ now: 0.0 }});\n{call_main}        for t in 0..{N}usize {{\n            program.host.now = t as f64;\n            let xs: [f64; 2] = [super::stream(t), super::stream(t) + 1.0];\n            let inp: Vec<Word> = xs[..{nin}].iter().map(|v| v.to_bits()).collect();\n            match program.call_dsp(&inp) {{\n                Ok(out) => {{ let s: Vec<String> = out.iter().map(|w| format!(\"{{:x}}\", w)).collect(); println!(\"S {{}}\", s.join(\" \")); }}\n                Err(e) => println!(\"E {{}}\", e.replace('\\n', \" \")),\n            }}\n        }}\n}}\n}}\n"
+        "#[allow(warnings)]\nmod p{i} {{\n{rust}\npub struct H {{ pub now: f64 }}\nimpl MimiumHost for H {{\n    fn call_ext(&mut self, name: &str, a: &[Word], _r: usize) -> Result<Vec<Word>, String> {{\n        let x = |i: usize| f64::from_bits(a.get(i).copied().unwrap_or(0));\n        let r = match name {{\n            \"sin\" => x(0).sin(), \"cos\" => x(0).cos(), \"tan\" => x(0).tan(), \"sinh\" => x(0).sinh(), \"cosh\" => x(0).cosh(), \"tanh\" => x(0).tanh(),\n            \"asin\" => x(0).asin(), \"acos\" => x(0).acos(), \"atan\" => x(0).atan(), \"atan2\" => x(0).atan2(x(1)), \"sqrt\" => x(0).sqrt(), \"abs\" => x(0).abs(),\n            \"log\" => x(0).ln(), \"exp\" => x(0).exp(), \"pow\" => x(0).powf(x(1)), \"min\" => x(0).min(x(1)), \"max\" => x(0).max(x(1)),\n            \"ceil\" => x(0).ceil(), \"floor\" => x(0).floor(), \"round\" => x(0).round(),\n            _ => return Err(format!(\"unexpected external call: {{}}\", name)),\n        }};\n        Ok(vec![r.to_bits()])\n    }}\n    fn current_time(&mut self) -> f64 {{ self.now }}\n    fn sample_rate(&mut self) -> f64 {{ {HOST_SR:?} }}\n}}\npub fn run() {{\n        let mut program = MimiumProgram::with_host(H {{ now: 0.0 }});\n{call_main}        for t in 0..{N}usize {{\n            program.host.now = t as f64;\n            let xs: [f64; 2] = [super::stream(t), super::stream(t) + 1.0];\n            let inp: Vec<Word> = xs[..{nin}].iter().map(|v| v.to_bits()).collect();\n            match program.call_dsp(&inp) {{\n                Ok(out) => {{ let s: Vec<String> = out.iter().map(|w| format!(\"{{:x}}\", w)).collect(); println!(\"S {{}}\", s.join(\" \")); }}\n                Err(e) => println!(\"E {{}}\", e.replace('\\n', \" \")),\n            }}\n        }}\n}}\n}}\n"
     )
 }
 fn main_text(idxs: &[usize]) -> String {
